@@ -356,7 +356,7 @@ fn spending(cfg: &Cfg, rep: &mut Report, h: u64, steps: usize, to_bound: bool) {
 pub fn run(cfg: &Cfg, rep: &mut Report) {
     rep.rule = "(a) exhaustive: simple-threshold example and a weighted-threshold wrapper, n = 1..=5 signers, every threshold 0..=n+1 (weighted: 0,1,total-1,total,total+1 and random, weight maps incl. sums beyond u32::MAX), EVERY subset of the signers (+ an outsider) through can_enforce and enforce, with and without the account's authorization; (b) seeded histories on the spending-limit example: install/uninstall/set limit, 1-3 transfers per ledger with amounts around the remaining room, ledger moves of {1,2,P-1,P,P+1}, malformed and non-transfer contexts, one history per shard driven to the 1000-entry bound. Distinct case = (policy, op, have-vs-threshold class or window position / history length class, outcome).".into();
     thresholds(cfg, rep);
-    let nh = cfg.pick(12u64, 150);
+    let nh = cfg.pick(30u64, 250);
     for k in 0..nh {
         let h = 50_000 + k;
         if cfg.runs(h) {
